@@ -86,6 +86,10 @@ def mk_stream(P, asc, custom, seed=42):
     s.add_constant_signal(P['f_start'], P['drift'], P['level'], P['phase'])
     if custom == 'real':
         s.add_signal(custom_real)
+    elif custom == 'real_twice':
+        # the same source attached twice (two identical emitters): it counts twice
+        s.add_signal(custom_real)
+        s.add_signal(custom_real)
     elif custom == 'complex':
         s.add_signal(custom_complex)
     elif custom == 'int':
@@ -102,6 +106,8 @@ def spec_sample(P, asc, custom, t, draw, seed=42):
     im = RV(0)
     if custom == 'real':
         re = re + CU(t)
+    elif custom == 'real_twice':
+        re = re + 2 * CU(t)
     elif custom in ('complex', 'complex_first'):
         re, im = re + CUR(t), CUI(t)
     elif custom == 'int':
@@ -460,7 +466,7 @@ def _replay_stream(p, vals):
     t_set, delta = 7.2503137, 0.50007
     if vals:
         sr, t0, t_set, delta = vals.get('sr', sr), vals.get('t0', t0), vals.get('t_set', t_set), vals.get('delta', delta)
-    cf = {'real': lambda ts: 0.25 * ts ** 2, 'complex': lambda ts: np.sin(ts) + 1j * ts, 'complex_first': lambda ts: np.sin(ts) + 1j * ts,
+    cf = {'real': lambda ts: 0.25 * ts ** 2, 'real_twice': lambda ts: 0.25 * ts ** 2, 'complex': lambda ts: np.sin(ts) + 1j * ts, 'complex_first': lambda ts: np.sin(ts) + 1j * ts,
           'int': lambda ts: np.full(len(ts), 3)}.get(custom)
 
     def mk(seed=9):
@@ -471,6 +477,8 @@ def _replay_stream(p, vals):
         s.add_constant_signal(f0, d, lvl, ph)
         if cf and custom != 'complex_first':
             s.add_signal(cf)
+        if custom == 'real_twice':
+            s.add_signal(cf)
         return s
 
     def closed(ts, z):
@@ -478,7 +486,7 @@ def _replay_stream(p, vals):
         if not asc:
             phs = -phs
         v = 0.5 + 2.0 * z + lvl * np.cos(phs + ph)
-        return v + cf(ts) if cf else v
+        return v + cf(ts) * (2 if custom == 'real_twice' else 1) if cf else v
     zs = np.random.default_rng(9).standard_normal(4096)
     s = mk()
     msgs = []
@@ -575,7 +583,7 @@ def main():
     for asc in (True, False):
         for custom in (None, 'real', 'complex'):
             jobs.append(('job_stream', (asc, N if custom != 'complex' else min(N, 4), custom)))
-        for custom in ('complex_first', 'int'):
+        for custom in ('complex_first', 'int', 'real_twice'):
             jobs.append(('job_stream', (asc, 3, custom)))
         seqs = [(o,) for o in OPS] + list(itertools.product(OPS, repeat=2))
         for ops in seqs:
